@@ -81,11 +81,12 @@ def applyMask {α} (m : List Bool) (r : Result α) : Result α :=
 
 /-! ### `_setup_file_paths` for a list of files -/
 
-structure PathIn where
+/-- one entry of the file list; `σ` is the type of file-name stems (`String` in the driver) -/
+structure PathIn (σ : Type) where
   /-- identity of `p.parents[1]` (the catalog directory the file belongs to) -/
   group : Nat
   /-- `p.stem` -/
-  stem : String
+  stem : σ
   deriving Repr, DecidableEq
 
 inductive PathErr where
@@ -108,31 +109,32 @@ def parseIndex (stem : String) : Option Nat :=
   | some t => if t.all Char.isDigit then t.toNat? else none
   | none => none
 
-def hasDup : List PathIn → Bool
+def hasDup {σ} [DecidableEq σ] : List (PathIn σ) → Bool
   | [] => false
   | p :: rest => rest.contains p || hasDup rest
 
-def parseAll : List PathIn → Except PathErr (List Nat)
+/-- `[int(hfn.stem.split('_')[-1]) for hfn in halo_fns]`; `parse` is the token parser (`parseIndex`) -/
+def parseAll {σ} (parse : σ → Option Nat) : List (PathIn σ) → Except PathErr (List Nat)
   | [] => .ok []
   | p :: rest =>
-    match parseIndex p.stem with
+    match parse p.stem with
     | none => .error .badIndex
     | some i =>
-      match parseAll rest with
+      match parseAll parse rest with
       | .error e => .error e
       | .ok is => .ok (i :: is)
 
-def setupPaths (ps : List PathIn) : Except PathErr (List Nat) :=
+def setupPaths {σ} [DecidableEq σ] (parse : σ → Option Nat) (ps : List (PathIn σ)) : Except PathErr (List Nat) :=
   match ps with
   | [] => .error .empty
   | p0 :: _ =>
     if ps.any (fun p => p.group ≠ p0.group) then .error .mixed
     else if hasDup ps then .error .duplicate
-    else parseAll ps
+    else parseAll parse ps
 
 /-! ### driver -/
 
-def parsePath? (s : String) : Option PathIn :=
+def parsePath? (s : String) : Option (PathIn String) :=
   match s.splitOn "/" with
   | [g, stem] => (g.toNat?).map (fun g => { group := g, stem := stem })
   | _ => none
@@ -159,7 +161,7 @@ def handle3 (args : List String) : String :=
   | "paths" :: ps =>
     match ps.mapM parsePath? with
     | some ps =>
-      match setupPaths ps with
+      match setupPaths parseIndex ps with
       | .ok is => s!"ok {showList is}"
       | .error e => s!"err {e.toString}"
     | none => "bad-op"
